@@ -44,7 +44,12 @@ pub fn run(ctx: &Ctx) -> Outcome {
         let bs = cfg.bs;
         let sweep = cfg.sets.contains('s');
         let lmax = if sweep { 2 * bs + 1 } else { tier.pick(3 * bs + 2, 4 * bs + 3) };
-        let lens = byte_lengths(bs, lmax);
+        let mut lens = byte_lengths(bs, lmax);
+        let mut lmax = lmax;
+        if bs <= 32 && !sweep {
+            lens.extend(long_lengths(bs));
+            lmax = lmax.max(17 * bs + 1);
+        }
         let fes = family_frontends(cfg, fam, *dir);
         let pre = dirty(lmax);
         for key in keys(seed, cfg.key_len).iter().take(if sweep { 1 } else { tier.pick(1, 2) }) {
